@@ -477,7 +477,7 @@ func runMatrixCase(l *mc.Local, c mxCase) (class, what string) {
 	}
 	lv := levels[li]
 	text, payload := content(fam, c.Len, c.Pat)
-	if c.Pat >= 2000 && c.Pat < 2004 && fam == famByteECI {
+	if c.Pat >= 2000 && c.Pat < 2100 && fam == famByteECI {
 		var ok bool
 		if text, payload, ok = specialData(c.V, lv.ref, c.Pat-2000); !ok {
 			return "harness/bad-case", fmt.Sprint(c)
